@@ -82,6 +82,40 @@ def build(SqliteMap, name, d, nodes, edges, mode, use_latlon=False):
     return m
 
 
+def raw_selftest(seed=0):
+    """statement-level comparison of the shim with the real sqlite3 for the constructs the repository does not use today but a
+    changed tree may (arithmetic in ORDER BY, DESC, LIMIT with parameters).  Disagreement is a harness error."""
+    import sqlite3
+    rnd = random.Random(seed)
+    rows = [(i, float(rnd.randint(-3, 3)), float(rnd.randint(-3, 3))) for i in range(7)]
+    stmts = [("SELECT id FROM pts ORDER BY (x - ?) * (x - ?) + (y - ?) * (y - ?), id LIMIT ?", (0.5, 0.5, -1.0, -1.0, 3)),
+             ("SELECT id, x FROM pts WHERE x >= ? ORDER BY y DESC, id", (-1.0,)),
+             ("SELECT id FROM pts p ORDER BY p.x + p.y * 2 - 1, id DESC LIMIT 4", ())]
+    d = scratch_dir()
+    try:
+        out = []
+        for mod, path in ((sqlite3, os.path.join(d, "raw.sqlite")), (sqlshim, os.path.join(d, "raw_shim.sqlite"))):
+            if mod is sqlshim:
+                sqlshim.reset()
+            con = mod.connect(path)
+            c = con.cursor()
+            c.execute("CREATE TABLE pts (id INTEGER PRIMARY KEY, x REAL, y REAL)")
+            for r in rows:
+                c.execute("INSERT INTO pts (id, x, y) VALUES (?, ?, ?)", r)
+            con.commit()
+            res = []
+            for q, prm in stmts:
+                c.execute(q, prm)
+                res.append([tuple(r) for r in c.fetchall()])
+            out.append(res)
+            con.close()
+        if out[0] != out[1]:
+            raise SystemExit(f"harness error: SQL shim disagrees with sqlite3 on ORDER BY / LIMIT statements: real={out[0]} shim={out[1]}")
+    finally:
+        shutil.rmtree(d, ignore_errors=True)
+    return len(stmts)
+
+
 def selftest(n=25, seed=None):
     """Run n random concrete scripts through SqliteMap on the real sqlite3 and on the shim; any disagreement is a harness
     error.  Returns the number of scripts compared."""
@@ -91,6 +125,7 @@ def selftest(n=25, seed=None):
     if seed is None:
         from symx.common import seed as _seed
         seed = _seed()
+    raw_selftest(seed)
     rnd = random.Random(seed)
     d = scratch_dir()
     try:
